@@ -522,6 +522,9 @@ impl Session {
         let peer = self.peers.get_mut(addr).ok_or(Error::PeerNotFound)?;
         let cmd = peer.handle_piece(chosen_index, &mut self.pieces_status, &self.metainfo);
         let _ = resp_ch.send(cmd);
+
+        // Last piece stored: extract files now, not only when some peer disconnects
+        self.extract_files_when_complete().await;
         Ok(true)
     }
 
@@ -575,20 +578,12 @@ impl Session {
             .await;
         self.kill_peer(&addr).await;
 
-        let have_all = self
-            .pieces_status
-            .iter()
-            .all(|status| *status == Status::Have);
-
-        if have_all {
-            if !self.files_extracted {
-                self.spawn_extractor().await;
+        if !self.extract_files_when_complete().await {
+            if self.candidates.is_empty() {
+                self.spawn_tracker();
+            } else {
+                self.spawn_peer_handler();
             }
-            self.files_extracted = true;
-        } else if self.candidates.is_empty() {
-            self.spawn_tracker();
-        } else {
-            self.spawn_peer_handler();
         }
 
         Ok(true)
@@ -672,6 +667,22 @@ impl Session {
             self.tracker.tx_ch.clone(),
         );
         self.tracker.job = Some(tokio::spawn(async move { tracker.run().await }));
+    }
+
+    /// Start file extraction (once) when all pieces are downloaded. Return true if all pieces
+    /// are downloaded.
+    async fn extract_files_when_complete(&mut self) -> bool {
+        let have_all = self
+            .pieces_status
+            .iter()
+            .all(|status| *status == Status::Have);
+
+        if have_all && !self.files_extracted {
+            self.spawn_extractor().await;
+            self.files_extracted = true;
+        }
+
+        have_all
     }
 
     async fn spawn_extractor(&mut self) {
